@@ -36,6 +36,13 @@ func Init(job string) (*LQClient, error) {
 
 	dbWriteSqlc := sqlc_model.New(dbWrite)
 
+	// URLs that a previous run of this job handed out but never reported finished (it was killed, or stopped while
+	// they were still waiting to enter the reactor) are still marked as claimed: make them available again.
+	if err := dbWriteSqlc.ResetClaimedURLs(context.Background()); err != nil {
+		logger.Error("error resetting claimed URLs", "err", err.Error(), "func", "lq.Init")
+		return nil, err
+	}
+
 	return &LQClient{
 		dbWrite:     dbWrite,
 		dbWriteSqlc: dbWriteSqlc,
